@@ -345,9 +345,16 @@ def main(path, default_bg, mode, premium):
             with open(file_path, "r", encoding="utf-8") as f:
                 css_content = f.read()
 
+            # A UTF-8 byte-order mark is an encoding signature, not part of the
+            # stylesheet (left in, it sticks to the first selector or at-keyword):
+            # it is set aside for parsing and carried through in front of the rules
+            bom = "\ufeff" if css_content.startswith("\ufeff") else ""
+            css_content = css_content[len(bom) :]
+
             rules = tinycss2.parse_stylesheet(
                 css_content, skip_whitespace=False, skip_comments=False
             )
+            rules[:0] = tinycss2.parse_component_value_list(bom)
 
             # Pre-process to find variables and parse their declaration lists
             # We need to keep the parsed declaration lists attached to the rules so we can update them
